@@ -34,6 +34,8 @@ type Ctx struct {
 
 	ev  Evidence
 	log *os.File
+
+	reusePrefix bool // writer histories: a third of the cases run on a Writer that was used before and Reset
 }
 
 // Case is anything the worker can execute.
